@@ -21,15 +21,15 @@ import (
 func c04Specs(tier string) []spaceSpec {
 	if tier == "thorough" {
 		return []spaceSpec{
-			{&gram.Space{Name: "full-1nt", Alpha: gram.Full, NNT: 1, Min: 1, Max: 5}, 4, ab},
-			{&gram.Space{Name: "core-1nt", Alpha: gram.Core, NNT: 1, Min: 6, Max: 6}, 4, ab},
-			{&gram.Space{Name: "full-2nt", Alpha: gram.Full, NNT: 2, Min: 2, Max: 5}, 3, ab},
+			{sp: &gram.Space{Name: "full-1nt", Alpha: gram.Full, NNT: 1, Min: 1, Max: 5}, maxLen: 4, alpha: ab},
+			{sp: &gram.Space{Name: "core-1nt", Alpha: gram.Core, NNT: 1, Min: 6, Max: 6}, maxLen: 4, alpha: ab},
+			{sp: &gram.Space{Name: "full-2nt", Alpha: gram.Full, NNT: 2, Min: 2, Max: 5}, maxLen: 3, alpha: ab},
 		}
 	}
 	return []spaceSpec{
-		{&gram.Space{Name: "full-1nt", Alpha: gram.Full, NNT: 1, Min: 1, Max: 4}, 4, ab},
-		{&gram.Space{Name: "core-1nt", Alpha: gram.Core, NNT: 1, Min: 5, Max: 5}, 4, ab},
-		{&gram.Space{Name: "full-2nt", Alpha: gram.Full, NNT: 2, Min: 2, Max: 4}, 3, ab},
+		{sp: &gram.Space{Name: "full-1nt", Alpha: gram.Full, NNT: 1, Min: 1, Max: 4}, maxLen: 4, alpha: ab},
+		{sp: &gram.Space{Name: "core-1nt", Alpha: gram.Core, NNT: 1, Min: 5, Max: 5}, maxLen: 4, alpha: ab},
+		{sp: &gram.Space{Name: "full-2nt", Alpha: gram.Full, NNT: 2, Min: 2, Max: 4}, maxLen: 3, alpha: ab},
 	}
 }
 
